@@ -52,11 +52,16 @@ class Gen:
         if a == 'ivp':
             return self.rng.choice(['step %s' % fs(v), 'dc %s' % fs(v), '%s' % fs(v)])
         if a == 'ac':
+            # `ac V [phi]`: amplitude and phase; quarter-turn phases keep the phasor Gaussian rational
+            if self.rng.random() < 0.5:
+                return 'ac %s %s' % (fs(v), self.rng.choice(['{pi/2}', '{-pi/2}', 'pi', '{pi/2}', '{-pi/2}']))
             return 'ac %s' % fs(v)
         raise ValueError(a)
 
     def src_args_lcapy(self, args):
         if self.analysis == 'ac':
+            if len(args.split()) == 3:          # phase present
+                return args + ' %s' % fs(self.omega)
             return args + ' 0 %s' % fs(self.omega)
         return args
 
